@@ -31,6 +31,9 @@ pub struct RegionRec {
     /// first row of the region as placed by the single-pass layouter (re-derived: the earliest
     /// row at which none of the region's columns is in use)
     pub start: usize,
+    /// fixed assignments made inside the region, in call order: (annotation, absolute row, value
+    /// as canonical integer)
+    pub fixed_seq: Vec<(String, usize, num_bigint::BigUint)>,
     /// columns touched (advice, fixed, selectors) and the largest absolute row assigned
     cols: std::collections::BTreeSet<ColKey>,
     last_row: Option<usize>,
@@ -94,7 +97,7 @@ impl<F> Rec<F> {
     }
 }
 
-impl<F: ff::Field> Assignment<F> for Rec<F> {
+impl<F: midnight_circuits::CircuitField> Assignment<F> for Rec<F> {
     fn enter_region<NR, N>(&mut self, name_fn: N)
     where
         NR: Into<String>,
@@ -178,7 +181,7 @@ impl<F: ff::Field> Assignment<F> for Rec<F> {
 
     fn assign_fixed<V, VR, A, AR>(
         &mut self,
-        _: A,
+        annotation: A,
         column: Column<Fixed>,
         row: usize,
         to: V,
@@ -190,10 +193,18 @@ impl<F: ff::Field> Assignment<F> for Rec<F> {
         AR: Into<String>,
     {
         let key: ColKey = ('f', column.index());
+        let mut fv = None;
         to().map(|v| {
             let r: Rational<F> = v.into();
-            self.fixed.insert((key, row), r.evaluate());
+            fv = Some(r.evaluate());
         });
+        if let Some(v) = fv {
+            self.fixed.insert((key, row), v);
+            if let Some(k) = self.cur {
+                let name: String = annotation().into();
+                self.regions[k].fixed_seq.push((name, row, v.to_biguint()));
+            }
+        }
         if self.cur.is_some() {
             self.touch(key, row);
         } else {
